@@ -27,22 +27,23 @@ vars == <<l, tally>>
 
 Obs == ndJsonDeserialize(ObsFile)
 
-RefV(e, i)     == Valid(e.unit.defs, e.unit.schema, e.unit.docs[i], {}, "decl", NoLim)
-ImplV(e, i, D) == Valid(e.unit.defs, e.unit.schema, e.unit.docs[i], D, "decl", NoLim)
+RefV(e, i)     == Valid(UnitEnv(e.unit), e.unit.schema, e.unit.docs[i], {}, "decl", NoLim)
+ImplV(e, i, D) == Valid(UnitEnv(e.unit), e.unit.schema, e.unit.docs[i], D, "decl", NoLim)
 ObsV(r)        == IF r.err \/ r.panic THEN Rej ELSE Acc
 \* Which open deviations account for a verdict that the model with all of Devs predicts: those that
 \* are necessary (removing x changes the prediction) or sufficient (x alone departs from the
 \* reference); if the disagreement is over-determined and needs a combination: Devs jointly.
 Explains(e, i) ==
-  LET ns == {x \in Devs : \/ ImplV(e, i, Devs \ {x}) # ImplV(e, i, Devs)
-                           \/ ImplV(e, i, {x}) # RefV(e, i)}
-  IN IF ns # {} THEN ns ELSE Devs
+  LET cands == CandDevs(KeysOf(e.unit.schema) \cup EnvKeys(UnitEnv(e.unit)), Devs)
+      ns == {x \in cands : \/ ImplV(e, i, Devs \ {x}) # ImplV(e, i, Devs)
+                            \/ ImplV(e, i, {x}) # RefV(e, i)}
+  IN IF ns # {} THEN ns ELSE cands
 
 \* value fidelity (Judge = "value"): for a valid document that was accepted, the reflective dump must
 \* hold the document (Decoded) and the re-marshalled JSON must reproduce it (Reproduced)
 ValueOK(e, i, D) ==
-  /\ e.res[i].val.t # "none" /\ Decoded(e.unit.defs, e.unit.schema, e.unit.docs[i], e.res[i].val, D)
-  /\ e.res[i].out.t # "none" /\ Reproduced(e.unit.defs, e.unit.schema, e.unit.docs[i], e.res[i].out, D)
+  /\ e.res[i].val.t # "none" /\ Decoded(UnitEnv(e.unit), e.unit.schema, e.unit.docs[i], e.res[i].val, D)
+  /\ e.res[i].out.t # "none" /\ Reproduced(UnitEnv(e.unit), e.unit.schema, e.unit.docs[i], e.res[i].out, D)
 
 Class(e, i) ==
   LET ref == RefV(e, i)  o == ObsV(e.res[i])  impl == ImplV(e, i, Devs \ {"YamlIntInMixedEnum"}) IN
@@ -61,7 +62,7 @@ YJ(e, i) == e.res[3 * i - 2]   Y1(e, i) == e.res[3 * i - 1]   Y2(e, i) == e.res[
 YamlSame(j, y) == ObsV(y) = ObsV(j) /\ (ObsV(j) = Acc => JEq(y.val, j.val))
 \* in scope: valid documents and documents whose only faults are required / bound / length / pattern /
 \* enum violations (every value has the JSON type its position declares)
-YamlInScope(e, i) == RefV(e, i) # Un /\ TypeClean(e.unit.defs, e.unit.schema, e.unit.docs[i])
+YamlInScope(e, i) == RefV(e, i) # Un /\ TypeClean(UnitEnv(e.unit), e.unit.schema, e.unit.docs[i])
 \* The YAML path is the as-is model without the deviations that exist only on the JSON path (encoding/json's
 \* case-insensitive key matching; UnmarshalJSON being called with null) and with the YAML-only ones.
 JsonOnly == {"CaseInsensitiveKeyBinding", "EnumNullDefault", "AddlNullPanics"}
